@@ -405,6 +405,7 @@ pub fn generate(seed: u64, knobs: &Knobs) -> C10Scenario {
                 use_alias: false,
                 bare: false,
                 via_source: false,
+                marker_of: None,
             };
             let w = mk(&ext);
             let requirer = rp.below(world.sources.len());
@@ -427,6 +428,7 @@ pub fn generate(seed: u64, knobs: &Knobs) -> C10Scenario {
             use_alias: false,
             bare: false,
             via_source: false,
+            marker_of: None,
         };
         let w = mk(&outside);
         world.externals.push(w);
